@@ -195,6 +195,13 @@ def gen_relabel(args):
         for vals in use:
             nodes = [[v, t, s] for (t, s), v in zip(slots, vals) if v != -1]
             rnd.shuffle(nodes)
+            if args.get("via") == "dfpos":
+                # positions are imported too: every node needs pixels, and its centroid must lie on them
+                def inside(t, s):
+                    px = [p for p in range(PX) if arr[t * PX + p] == s]
+                    return px and (sum(px) // len(px)) in px
+                if not nodes or not all(inside(t, s) for _, t, s in nodes):
+                    continue
             yield {"seg": [list(arr[t * PX:(t + 1) * PX]) for t in range(T)], "nodes": nodes, "via": args.get("via", "fn")}
 
 
@@ -224,10 +231,15 @@ def run_relabel(x):
             x["gnodes"] = []
             x["skipped"] = True
             return x
+        def cx(t, s):
+            px = [p for p in range(PX) if seg[t, p] == s]
+            return float(sum(px)) / len(px) if px else 0.0
         df = pd.DataFrame({"id": [n[0] for n in nodes], "time": [n[1] for n in nodes], "seg_id": [n[2] for n in nodes],
-                           "parent_id": [-1] * len(nodes), "y": [0.0] * len(nodes), "x": [0.0] * len(nodes)})
-        tr = tracks_from_df(df, segmentation=seg.reshape(T, 1, PX),
-                            node_name_map={"id": "id", "time": "time", "seg_id": "seg_id", "parent_id": "parent_id"})
+                           "parent_id": [-1] * len(nodes), "y": [0.0] * len(nodes), "x": [cx(n[1], n[2]) for n in nodes]})
+        nm = {"id": "id", "time": "time", "seg_id": "seg_id", "parent_id": "parent_id"}
+        if x["via"] == "dfpos":
+            nm["pos"] = ["y", "x"]
+        tr = tracks_from_df(df, segmentation=seg.reshape(T, 1, PX), node_name_map=nm)
         x["out"] = [[int(v) for v in row] for row in np.asarray(tr.segmentation).reshape(T, PX)]
         x["gnodes"] = sorted(int(n) for n in tr.graph.nodes)
     return x
@@ -298,7 +310,64 @@ def run_import(x):
     return x
 
 
+def gen_import_geff(args):
+    names = ["a", "b", "c"]
+    for n in range(0, 4):
+        for targets in itertools.permutations(names, n):
+            for sources in itertools.permutations(names, n):
+                for graph in range(args.get("graphs", 2)):
+                    yield {"map": [[t, s] for t, s in zip(targets, sources)], "graph": graph}
+
+
+GEFF_GRAPHS = [
+    # (node id, time, y, x), edges  - non-contiguous ids, a division, a skip edge
+    ([(3, 0, 1.0, 2.0), (7, 1, 2.0, 3.0), (8, 1, 4.0, 5.0), (12, 2, 6.0, 7.0)], [(3, 7), (3, 8), (7, 12)]),
+    ([(5, 0, 1.0, 1.0), (2, 2, 3.0, 3.0), (9, 1, 8.0, 8.0)], [(5, 2)]),
+]
+PROP_BASE = {"a": 100, "b": 200, "c": 300}       # value of property p on node n: PROP_BASE[p] + n
+
+
+def run_import_geff(x):
+    import shutil
+    import tempfile
+    from pathlib import Path
+    import geff
+    import networkx as nx
+    from funtracks.import_export.import_from_geff import import_from_geff
+    nodes, edges = GEFF_GRAPHS[x["graph"]]
+    g = nx.DiGraph()
+    for n, t, y, xx in nodes:
+        g.add_node(n, t=t, y=y, x=xx, **{p: float(b + n) for p, b in PROP_BASE.items()})
+    g.add_edges_from(edges)
+    d = Path(tempfile.mkdtemp(prefix="vf_geff_"))
+    try:
+        geff.write(g, d / "s.zarr", axis_names=["t", "y", "x"], axis_types=["time", "space", "space"])
+        nm = {"time": "t", "pos": ["y", "x"]}
+        feats = {}
+        for tgt, src in x["map"]:
+            nm["f_" + tgt] = src
+            feats["f_" + tgt] = False
+        tr = import_from_geff(d / "s.zarr", node_name_map=nm, node_features=feats or None)
+        got = []
+        for tgt, _ in x["map"]:
+            carried = set()
+            for n, _, _, _ in nodes:
+                v = tr.graph.nodes[n].get("f_" + tgt)
+                carried.add(next((p for p, b in PROP_BASE.items() if v is not None and float(v) == float(b + n)), "?"))
+            got.append([tgt, carried.pop() if len(carried) == 1 else "?"])
+        extra = [k for n in tr.graph.nodes for k in tr.graph.nodes[n] if k.startswith("f_") and k[2:] not in [t for t, _ in x["map"]]]
+        x["got"] = got + [["extra", "?"]] * (1 if extra else 0)
+        x["nodes_ok"] = sorted(tr.graph.nodes) == sorted(n for n, _, _, _ in nodes) and all(
+            int(tr.graph.nodes[n]["time"]) == t and [float(v) for v in tr.graph.nodes[n]["pos"]] == [y, xx]
+            for n, t, y, xx in nodes)
+        x["edges_ok"] = sorted(tr.graph.edges) == sorted(edges)
+    finally:
+        shutil.rmtree(d, ignore_errors=True)
+    return x
+
+
 PARTS = {
+    "import_geff": (gen_import_geff, run_import_geff),
     "import_df": (gen_import, run_import),
     "relabel": (gen_relabel, run_relabel),
     "namemap": (gen_namemap, run_namemap),
